@@ -373,7 +373,6 @@ int c20_batch(const Args &a) {
                 } else if (r.nfailed) {
                     bool failed = shape_of(op).neg_is_failure ? r.raw < 0 : r.raw != 0;
                     if (failed) st.out_fail_clean++;
-                    if (failed && r.hcalls.empty()) { st.fail_no_handler++; if (st.fail_no_handler_fn[g_fn[op.fn].name]++ == 0) { printf("NOHANDLER %s\n", g_fn[op.fn].name); fflush(stdout); } }
                     else st.out_success_same++;
                 }
                 if (!fc.from_k && __builtin_popcountll(fc.mask) < 3) {
